@@ -186,6 +186,9 @@ def check(case, stats):
                 if it.run() != 'done':
                     return []
             except Exception as e:  # noqa: BLE001
+                from ..engine import Discard
+                if isinstance(e, Discard):
+                    return []
                 if not is_engine_exception(e):
                     raise
                 if isinstance(e, ValueError):
